@@ -2187,8 +2187,18 @@ def _replay_cases(replay):
     return [replay["case"]]
 
 
-def _finish(chk, corpus, gen_bins, model_runner, cases, nontrivial, reenc, dist):
+# round-trip deviations of the unchanged tree (see KNOWN_DEVIATION_CLASSES) belong to C05 / C06; the
+# totality and merge oracles see them too (they compare values wherever both decoders accept) but only
+# count them
+ROUNDTRIP_ONLY = ("map-negzero-default", "wrapper-negzero-default")
+
+
+def _finish(chk, corpus, gen_bins, model_runner, cases, nontrivial, reenc, dist, suppress=()):
     failing, outputs = run_cases(corpus, gen_bins, cases, reenc=reenc)
+    if suppress:
+        kept = [f for f in failing if f[1].split(":", 1)[0] not in suppress]
+        dist = dict(dist, suppressed_roundtrip_deviations=len(failing) - len(kept))
+        failing = kept
     mism = run_model(corpus, model_runner, cases, outputs)
     for c, nt in zip(cases, nontrivial):
         chk.count(c, nt)
@@ -2486,8 +2496,7 @@ def run_c10(chk, prop, corpus, gen_bins, model_runner, rng, tier, replay=None):
     else:
         cases, kinds = _c10_cases(corpus, rng, tier)
     nt = [len(strip_ann(c)) > 12 for c in cases]
-    failing, mism, n = _finish(chk, corpus, gen_bins, model_runner, cases, nt, False, dict(kinds=kinds))
-    return failing, mism, n
+    return _finish(chk, corpus, gen_bins, model_runner, cases, nt, False, dict(kinds=kinds), suppress=ROUNDTRIP_ONLY)
 
 
 # ---- C18
@@ -2558,7 +2567,7 @@ def run_c18(chk, prop, corpus, gen_bins, model_runner, rng, tier, replay=None):
     else:
         cases, kinds = _c18_cases(corpus, rng, tier)
     nt = [True] * len(cases)
-    return _finish(chk, corpus, gen_bins, model_runner, cases, nt, False, dict(kinds=kinds))
+    return _finish(chk, corpus, gen_bins, model_runner, cases, nt, False, dict(kinds=kinds), suppress=ROUNDTRIP_ONLY)
 
 
 # ======================================================================================
